@@ -293,6 +293,7 @@ func init() {
 			{Engine: "A", Scenario: "crashy", Quick: 6, Thorough: 80},
 			{Engine: "A", Scenario: "compaction-grid", Params: "seg=1024", Quick: 16, Thorough: 300},
 			{Engine: "A", Scenario: "install-crash", Params: "seg=1024", Quick: 12, Thorough: 150},
+			{Engine: "A", Scenario: "snapshot-vs-install", Params: "seg=1024", Quick: 12, Thorough: 120},
 		},
 		Rule: "seeded live-cluster runs with snapshots on leaders and followers, compaction over 1-4 KiB segments, lagging / isolated followers brought back by entries or by snapshot installation, restarts and crashes; directed: stale suffix covering the snapshot index; every snapshot file is read back (label + id list) when it is published or stored and compared with the global applied sequence and the committed log; unmapped segments are quarantined (PROT_NONE) so that a read through a stale view faults; non-trivial if at least one snapshot file was checked and at least one compaction or installation happened; distinct = distinct abstract trace",
 		Nontrivial: func(st map[string]int64) bool {
@@ -341,6 +342,8 @@ func init() {
 			{Engine: "A", Scenario: "everything", Quick: 8, Thorough: 100, Race: true},
 			{Engine: "A", Scenario: "double-install", Params: "seg=1024", Quick: 4, Thorough: 40, Race: true},
 			{Engine: "A", Scenario: "double-install", Params: "seg=1024", Quick: 4, Thorough: 40},
+			{Engine: "A", Scenario: "snapshot-vs-install", Params: "seg=1024", Quick: 6, Thorough: 60},
+			{Engine: "A", Scenario: "snapshot-vs-install", Params: "seg=1024", Quick: 3, Thorough: 30, Race: true},
 			{Engine: "A", Scenario: "snapshot", Quick: 4, Thorough: 60, Race: true},
 			{Engine: "A", Scenario: "member", Quick: 4, Thorough: 60, Race: true},
 		},
